@@ -52,6 +52,18 @@ CLAIMS = {
         "Trusted: CPython ast; yadsa partial evaluator and summaries; algebra.subs; heavy coefficient functions folded above threshold.",
         "DESIGN.md section 3, C13",
     ),
+    "C04": (
+        "normal-form comparison with published NLO closed forms; closed-form first moments of the source's parametrisations; sibling agreement",
+        "Decides: the NLO distribution (regular, singular, local part) of every light partonic-channel class of F2, FL, F3, g1 (NC, CC even/odd), "
+        "folded through the MRO, equals the published closed form for all z, nf, and no NLO term exists where the literature has none; the first "
+        "moment int_0^1 reg dz + loc(0) of the normal form read from the source (tanh-sinh integration of the closed form; no repository code "
+        "runs) reproduces Adler (0) for nu-nubar F2 at orders 1..3 and the Gross-Llewellyn-Smith/Bjorken non-singlet coefficients for F3 (1..3) "
+        "and g1 (1..2), nf = 3..6, within the accuracy of the published parametrisations; F2/F3 share NNLO and N3LO threshold kernels; "
+        "nu+nubar / nu-nubar siblings differ by an nf-independent function. NOT decided: higher Mellin moments, singlet/gluon beyond NLO.",
+        "Trusted: CPython ast; yadsa normaliser; spec/nlo.py (published forms and sum-rule coefficients, transcribed independently); tolerances "
+        "1e-8 / 2e-2 / 0.5 reflect the accuracy of the Vogt et al. parametrisations.",
+        "DESIGN.md section 3, C04",
+    ),
     "C05": (
         "end-to-end RGE identity on partially evaluated operators against a solution built by the checker",
         "Decides: for every cell (kinds x heavyness x NC/CC x five schemes x PTO 1..3 x the four RenScaleVar/FactScaleVar combinations) every "
